@@ -1217,3 +1217,191 @@ Proof.
       apply matched_of_In in Hl. destruct Hl as [v [Hv E]]. exists v.
       split; [exact Hv|]. unfold idx_of. rewrite E. reflexivity.
 Qed.
+
+(* ---- the all-grouped case, as stated in the property ---- *)
+
+Definition all_grouped (a : acked_t) (V : list N) : Prop :=
+  forall v, In v V -> grp_of a v <> 0.
+
+(* "voters with index >= i span at least two distinct groups" *)
+Definition spans_two (a : acked_t) (V : list N) (i : N) : Prop :=
+  exists u v, In u V /\ In v V /\ grp_of a u <> grp_of a v /\
+              i <= idx_of a u /\ i <= idx_of a v.
+
+Lemma spans_two_groups : forall a V i, all_grouped a V ->
+  (spans_two a V i <-> two_groups a V i).
+Proof.
+  intros a V i Hall. unfold spans_two, two_groups. split.
+  - intros [u [v [Hu [Hv [G [Iu Iv]]]]]]. exists u, v.
+    repeat split; try assumption; apply Hall; assumption.
+  - intros [u [v [Hu [Hv [_ [_ [G [Iu Iv]]]]]]]]. exists u, v. tauto.
+Qed.
+
+Lemma spans_two_antimono : forall a V i j, i <= j -> spans_two a V j -> spans_two a V i.
+Proof.
+  intros a V i j Hij [u [v [Hu [Hv [G [Iu Iv]]]]]]. exists u, v.
+  repeat split; try assumption; lia.
+Qed.
+
+(* every voter grouped, at least two groups: flag true, and the result is the
+   largest i <= plain quorum index such that the voters with index >= i span two
+   groups *)
+Theorem gc_all_grouped : forall V a, V <> [] -> all_grouped a V -> spans_two a V 0 ->
+  let r := fst (committed_index true V a) in
+  let plain := fst (committed_index false V a) in
+  snd (committed_index true V a) = true /\
+  r <= plain /\ spans_two a V r /\
+  (forall i, i <= plain -> spans_two a V i -> i <= r).
+Proof.
+  intros V a HV Hall H2. cbn zeta.
+  apply (spans_two_groups a V 0 Hall) in H2.
+  destruct (gc_two_groups V a HV H2) as [Hf [Hle [Hr Hmax]]]. cbn zeta in *.
+  split; [exact Hf|]. split; [exact Hle|]. split.
+  - apply spans_two_groups; assumption.
+  - intros i Hi Hs. apply Hmax; [exact Hi|]. apply spans_two_groups; assumption.
+Qed.
+
+(* the same, as a formula: if G is the largest index replicated into two groups
+   then the result is min(plain, G) *)
+Corollary gc_all_grouped_min : forall V a G, V <> [] -> all_grouped a V ->
+  spans_two a V G -> (forall i, spans_two a V i -> i <= G) ->
+  committed_index true V a = (N.min (fst (committed_index false V a)) G, true).
+Proof.
+  intros V a G HV Hall HG Hmax.
+  assert (H0 : spans_two a V 0) by (apply (spans_two_antimono a V 0 G); [lia|exact HG]).
+  destruct (gc_all_grouped V a HV Hall H0) as [Hf [Hle [Hr Hm]]]. cbn zeta in *.
+  rewrite (surjective_pairing (committed_index true V a)), Hf. f_equal.
+  apply N.le_antisymm.
+  - specialize (Hmax _ Hr). lia.
+  - apply Hm; [lia|]. apply (spans_two_antimono a V _ G); [lia|exact HG].
+Qed.
+
+(* every voter grouped, one group only: the plain index with flag false *)
+Theorem gc_all_grouped_one : forall V a, V <> [] -> all_grouped a V ->
+  (forall u v, In u V -> In v V -> grp_of a u = grp_of a v) ->
+  committed_index true V a = (fst (committed_index false V a), false).
+Proof. intros V a HV Hall Hsame. apply gc_single_group; assumption. Qed.
+
+(* ---- permutation invariance of the group-commit result (any group assignment) ---- *)
+
+Lemma two_groups_perm : forall a V V' i, Permutation V V' ->
+  two_groups a V i -> two_groups a V' i.
+Proof.
+  intros a V V' i H [u [v [Hu [Hv Hrest]]]]. exists u, v.
+  split; [apply (Permutation_in _ H Hu)|]. split; [apply (Permutation_in _ H Hv)|].
+  exact Hrest.
+Qed.
+
+Definition two_groups_b (a : acked_t) (V : list N) : bool :=
+  existsb (fun u => existsb (fun v =>
+    negb (grp_of a u =? 0) && negb (grp_of a v =? 0) &&
+    negb (grp_of a u =? grp_of a v)) V) V.
+
+Lemma two_groups_b_true : forall a V, two_groups_b a V = true -> two_groups a V 0.
+Proof.
+  intros a V H. unfold two_groups_b in H. apply existsb_exists in H.
+  destruct H as [u [Hu H]]. apply existsb_exists in H. destruct H as [v [Hv H]].
+  rewrite !andb_true_iff, !negb_true_iff, !N.eqb_neq in H.
+  exists u, v. repeat split; try tauto; lia.
+Qed.
+
+Lemma two_groups_b_false : forall a V, two_groups_b a V = false ->
+  forall u v, In u V -> In v V -> grp_of a u <> 0 -> grp_of a v <> 0 ->
+              grp_of a u = grp_of a v.
+Proof.
+  intros a V H u v Hu Hv Gu Gv.
+  destruct (N.eq_dec (grp_of a u) (grp_of a v)) as [E|E]; [exact E|exfalso].
+  assert (two_groups_b a V = true); [|congruence].
+  unfold two_groups_b. apply existsb_exists. exists u. split; [exact Hu|].
+  apply existsb_exists. exists v. split; [exact Hv|].
+  rewrite !andb_true_iff, !negb_true_iff, !N.eqb_neq. tauto.
+Qed.
+
+(* The group-commit result does not depend on the hash-iteration order either,
+   although the loop reads the groups of equal indexes in iteration order. *)
+Theorem committed_index_gc_perm : forall V V' a, Permutation V V' ->
+  committed_index true V a = committed_index true V' a.
+Proof.
+  intros V V' a H. destruct V as [|v0 V0].
+  - apply Permutation_nil in H. subst. reflexivity.
+  - assert (HV : v0 :: V0 <> []) by discriminate. set (V := v0 :: V0) in *.
+    pose proof (perm_nonempty _ _ _ H HV) as HV'.
+    pose proof (committed_index_perm_fst V V' a HV H) as Hplain.
+    pose proof (Permutation_sym H) as H'.
+    destruct (two_groups_b a V) eqn:E2.
+    + apply two_groups_b_true in E2.
+      pose proof (two_groups_perm a V V' 0 H E2) as E2'.
+      destruct (gc_two_groups V a HV E2) as [Hf [Hle [Hr Hm]]].
+      destruct (gc_two_groups V' a HV' E2') as [Hf' [Hle' [Hr' Hm']]].
+      cbn zeta in *.
+      rewrite (surjective_pairing (committed_index true V a)),
+              (surjective_pairing (committed_index true V' a)), Hf, Hf'. f_equal.
+      apply N.le_antisymm.
+      * apply Hm'; [lia|]. apply (two_groups_perm a V V' _ H Hr).
+      * apply Hm; [lia|]. apply (two_groups_perm a V' V _ H' Hr').
+    + pose proof (two_groups_b_false a V E2) as Hsame.
+      assert (Hsame' : forall u v, In u V' -> In v V' -> grp_of a u <> 0 ->
+                                   grp_of a v <> 0 -> grp_of a u = grp_of a v).
+      { intros u v Hu Hv. apply Hsame; apply (Permutation_in _ H'); assumption. }
+      destruct (forallb (fun v => negb (grp_of a v =? 0)) V) eqn:Enz.
+      * rewrite forallb_forall in Enz.
+        assert (Hall : forall v, In v V -> grp_of a v <> 0).
+        { intros v Hv. specialize (Enz v Hv). rewrite negb_true_iff, N.eqb_neq in Enz.
+          exact Enz. }
+        assert (Hall' : forall v, In v V' -> grp_of a v <> 0).
+        { intros v Hv. apply Hall, (Permutation_in _ H'), Hv. }
+        rewrite (gc_single_group V a HV Hall), (gc_single_group V' a HV' Hall'), Hplain;
+          [reflexivity| |]; intros u v Hu Hv; auto.
+      * assert (Hz : exists v, In v V /\ grp_of a v = 0).
+        { destruct (existsb (fun v => grp_of a v =? 0) V) eqn:Ex.
+          - apply existsb_exists in Ex. destruct Ex as [v [Hv Ev]].
+            exists v. split; [exact Hv|lia].
+          - exfalso. assert (forallb (fun v => negb (grp_of a v =? 0)) V = true);
+              [|congruence].
+            apply forallb_forall. intros v Hv. apply negb_true_iff.
+            destruct (grp_of a v =? 0) eqn:Ev; [|reflexivity].
+            assert (existsb (fun v => grp_of a v =? 0) V = true); [|congruence].
+            apply existsb_exists. exists v. tauto. }
+        assert (Hz' : exists v, In v V' /\ grp_of a v = 0).
+        { destruct Hz as [v [Hv Ev]]. exists v. split; [apply (Permutation_in _ H Hv)|exact Ev]. }
+        destruct (gc_zero_group V a HV Hz Hsame) as [Hf [Hmin [w [Hw Ew]]]].
+        destruct (gc_zero_group V' a HV' Hz' Hsame') as [Hf' [Hmin' [w' [Hw' Ew']]]].
+        cbn zeta in *.
+        rewrite (surjective_pairing (committed_index true V a)),
+                (surjective_pairing (committed_index true V' a)), Hf, Hf'. f_equal.
+        apply N.le_antisymm.
+        -- rewrite Ew'. apply Hmin, (Permutation_in _ H'), Hw'.
+        -- rewrite Ew. apply Hmin', (Permutation_in _ H), Hw.
+Qed.
+
+Theorem joint_committed_index_gc_perm : forall gc inc inc' out out' a,
+  Permutation inc inc' -> Permutation out out' ->
+  joint_committed_index gc inc out a = joint_committed_index gc inc' out' a.
+Proof.
+  intros gc inc inc' out out' a Hi Ho. unfold joint_committed_index. destruct gc.
+  - rewrite (committed_index_gc_perm _ _ a Hi), (committed_index_gc_perm _ _ a Ho).
+    reflexivity.
+  - rewrite (committed_index_perm _ _ a Hi), (committed_index_perm _ _ a Ho). reflexivity.
+Qed.
+
+(* ---- concrete sanity checks (the doc-comment examples of majority.rs) ---- *)
+
+Definition acked_list (l : list (N * Index)) : acked_t := assoc l.
+
+(* "If the matched indexes are [2,2,2,4,5], it will return 2." *)
+Example doc_example_plain :
+  committed_index false [1;2;3;4;5]
+    (acked_list [(1,(2,0));(2,(2,0));(3,(2,0));(4,(4,0));(5,(5,0))]) = (2, false).
+Proof. vm_compute. reflexivity. Qed.
+
+(* "If the matched indexes and groups are [(1, 1), (2, 2), (3, 2)], it will return 1." *)
+Example doc_example_gc :
+  committed_index true [1;2;3]
+    (acked_list [(1,(1,1));(2,(2,2));(3,(3,2))]) = (1, true).
+Proof. vm_compute. reflexivity. Qed.
+
+(* group commit can be strictly below the plain index *)
+Example gc_strictly_less :
+  fst (committed_index true [1;2;3] (acked_list [(1,(1,1));(2,(2,2));(3,(3,2))])) <
+  fst (committed_index false [1;2;3] (acked_list [(1,(1,1));(2,(2,2));(3,(3,2))])).
+Proof. vm_compute. reflexivity. Qed.
